@@ -24,3 +24,10 @@ GROUPS += [
           bound="one constructed sparsity pattern (2 rows, 2 structural columns with 3 coefficients, 2 logicals), logical columns first or last, with / without logicals, symbolic values; loops completely unwound",
           functions=["ILLlp_rows_init"], props=["C06", "C17"]),
 ]
+
+GROUPS += [
+    Group("lib/getcols_lf%d" % lf, "lib_getcols.c", tus=LIB + ["eg_lpnum.c"], model=MODEL, defines=["LF=%d" % lf], dfcc=False, unwind=6, kind="bounded", timeout=900, flags=["--no-malloc-may-fail"],
+          bound="one constructed sparsity pattern (2 rows, 2 structural columns with 3 coefficients, 2 logicals), logical columns %s, column list {1, 0}, symbolic values; loops completely unwound" % ("first (column map not the identity)" if lf else "last"),
+          functions=["ILLlib_getcols"], props=["C06", "C17"])
+    for lf in (0, 1)
+]
